@@ -1,0 +1,32 @@
+//go:build verif
+
+package core
+
+// Read-only accessors for the /verif correspondence harness (property C13).
+// Compiled only with `-tags verif`.
+
+// VerifPath returns the unexported path prefix of a PathParameter.
+func (p PathParameter) VerifPath() string { return string(p.path) }
+
+// VerifParameter returns the unexported parameter name of a PathParameter.
+func (p PathParameter) VerifParameter() string { return p.parameter }
+
+// VerifPathParametersRaw is pathParameters (no empty/duplicate check).
+func VerifPathParametersRaw(path string) []PathParameter { return pathParameters(path) }
+
+// VerifSplitPath is splitPath.
+func VerifSplitPath(path string) []string { return splitPath(path) }
+
+// VerifCheckSimilarPaths registers the paths one after the other (pathParameters then
+// checkSimilarPaths) on a fresh similarPaths map, as addURL/addHTTPMethod do on the
+// project-wide one.  It returns the index of the first rejected path and its error,
+// or (-1, nil).
+func VerifCheckSimilarPaths(paths []string) (int, error) {
+	c := &JApiCore{similarPaths: make(map[string]string, 20)}
+	for i, p := range paths {
+		if err := c.checkSimilarPaths(pathParameters(p)); err != nil {
+			return i, err
+		}
+	}
+	return -1, nil
+}
